@@ -249,7 +249,13 @@ class EqualityComparer:
                 and self.rec(
                     expr1.matrix.elem_col_indices, expr2.matrix.elem_col_indices)
                 and self.rec(expr1.matrix.row_starts, expr2.matrix.row_starts)
+                and expr1.matrix.shape == expr2.matrix.shape
+                and expr1.matrix.dtype == expr2.matrix.dtype
+                and expr1.matrix.axes == expr2.matrix.axes
+                and expr1.matrix.tags == expr2.matrix.tags
                 and self.rec(expr1.array, expr2.array)
+                and expr1.reduction_var == expr2.reduction_var
+                and expr1.reduction_descr == expr2.reduction_descr
                 and expr1.tags == expr2.tags
                 and expr1.axes == expr2.axes)
 
